@@ -196,6 +196,23 @@ def _generate(rng, tier):
         race = rng.random() < 0.08
         out.append(Case(gen_history(rng, nops if not race else min(nops, 80), shape, race), H,
                         ('history', shape, f'ops<={nops}') + (('real-thread-race',) if race else ())))
+    # a reader that lags far behind another one: reader 0 collects after every measurement, the others only at the end (or
+    # once in the middle) - nothing recorded in between may be taken away from the late reader, however many of the other
+    # reader's collections have gone by (lengths around powers of two and well beyond a hundred)
+    for n_col in ([130, 260] if not big else [64, 100, 127, 128, 129, 130, 200, 257, 300, 520, 1030]):
+        readers = rng.choice([['D', 'D'], ['D', 'C', 'D'], ['C', 'D'], ['D', 'D', 'D']])
+        kind = rng.choice(['cl', 'cd', 'ul'])
+        ops = [f'create 0 {kind}']
+        mid = rng.randrange(n_col) if rng.random() < 0.5 else -1
+        for i in range(n_col):
+            ops.append(f'add 0 {rng.choice([0, 1, 2])} {rng.randrange(1, 50)}')
+            ops.append('collect 0')
+            if i == mid:
+                ops.append(f'collect {len(readers) - 1}')
+        for r in range(1, len(readers)):
+            ops.append(f'collect {r}')
+        ops.append('collect 0')
+        out.append(Case(line(readers, [], ops), H, ('history', 'lagging-reader', f'collections-{n_col}')))
     # malformed stream
     for i in range(40):
         l = gen_history(rng, 12, 'mixed')
